@@ -7,7 +7,8 @@ Three agreement clauses between sibling tables, each a necessary condition of th
      (each literal, each prefix path, each std parser);
  (c) float spelling: the FloatingPoint arm of emit_node does not hand the value to Display alone (integral floats would print
      without '.', inf/NaN in a spelling the core schema does not read as a float).
-Round-trip equality itself, layout, complex keys and the multiline_strings path are not decided.
+ (d) nesting-level balance and (e) newline-then-indent over the emitter's functions (emitter_layout).
+Round-trip equality itself, the amount of indentation, complex keys and the multiline_strings path are not decided.
 """
 import json
 from .common import *
@@ -25,7 +26,8 @@ def new_report(tier):
         "<f64 as Debug> always prints a fractional part or an exponent for finite values (std)",
     ], "E4 table extraction on both sides (escape_str's byte switch, need_quotes' tests incl. folded character-set closures and its literal "
        "list, the resolver's literals/prefixes/parsers from C08's extraction, the scanner's escape table from C04's) and their comparison; "
-       "callee rule on the FloatingPoint arm of emit_node. Necessary conditions only: round-trip equality is a value-level property.")
+       "callee rule on the FloatingPoint arm of emit_node; path-sensitive level counting and a newline/indent typestate over every function "
+       "of the emitter. Necessary conditions only: round-trip equality is a value-level property.")
 
 
 def escape_str_table(F):
